@@ -47,6 +47,12 @@ CLAIMED["C16"] = {
     "note": "Class members are code points whose printable status is Unicode-version independent; the is_printable table itself (unic-ucd-category) is only sampled through those members.",
     "technique": "TLA+ machine of the repr layout/writer model-checked by TLC against a declarative repr table and decoder; exhaustive class strings replayed into Rust and parsed back; CPython cross-validation",
 }
+CLAIMED["C17"] = {
+    "text": "FloatParse.tla gives Python's float() grammar as a character scanner and, independently, as a declarative definition; TLC proves them equal on every string <= 5/6 symbols over {digit, _, ., e, sign, whitespace, inf/infinity/nan, other} and the strings are replayed on parse_str/parse_bytes (accept/reject; accepted values bit-compared with CPython float()). FloatText.tla defines decimal digit generation (dtoa modes 0/2/3 with ties-to-even) and PyOS_double_to_string's assembly for e/f/g/r on exact decimals; FloatCells.tla enumerates %f/%e/%g cells (exact dyadic values x precisions 0..20 x alternate form x case), repr-shape cells ((shortest digits, decimal exponent) over every exponent plus boundary doubles such as 0.9999999999999999, with parse-back and a no-shorter-rendering check) and float.hex()/fromhex() cells (doubles named by sign, exponent and 13 hex mantissa digits, with the accepted spellings); every cell is validated against CPython and replayed on literal::float.",
+    "design_ref": "DESIGN.md section 6 C17 and section 9",
+    "note": "TLC has no IEEE arithmetic: digits are computed by the specification only for exactly representable decimal values; that an arbitrary double's digits are correctly rounded/shortest is checked through round trips and CPython as trusted base; ASCII input only.",
+    "technique": "TLA+ scanner-vs-declarative grammar equivalence model-checked by TLC; TLA+ digit-string definitions of printf/repr/hex text; exhaustive TLC-generated strings and cells replayed into Rust; CPython cross-validation",
+}
 NOT_YET = {}
 
 def main():
